@@ -135,31 +135,59 @@ def audit_sources():
     return hits
 
 
-THEOREM_RE = re.compile(r"^\s*(?:@\[[^\]]*\]\s*)?(?:private\s+|protected\s+)?theorem\s+([A-Za-z_][\w.']*)", re.M)
+THEOREM_RE = re.compile(r"^\s*(?:@\[[^\]]*\]\s*)?(?:private\s+|protected\s+)?theorem\s+([A-Za-z_][\w.']*)")
+NS_RE = re.compile(r"^\s*namespace\s+([\w.]+)")
+END_RE = re.compile(r"^\s*end\s+([\w.]+)\s*$")
 
 
 def property_theorems(props_file):
-    """Names of the theorems stated in a Props file (comments stripped)."""
+    """Fully qualified names of the theorems stated in a Props file (comments stripped;
+    `namespace`/`end` tracked line by line; private theorems are skipped)."""
     code = strip_lean_comments(open(props_file).read())
-    return THEOREM_RE.findall(code)
+    stack = []
+    names = []
+    for line in code.split("\n"):
+        m = NS_RE.match(line)
+        if m:
+            stack.append(m.group(1))
+            continue
+        m = END_RE.match(line)
+        if m and stack and stack[-1] == m.group(1):
+            stack.pop()
+            continue
+        m = THEOREM_RE.match(line)
+        if m and "private" not in line.split("theorem")[0]:
+            names.append(".".join(stack + [m.group(1)]))
+    return names
 
 
 AX_RE = re.compile(r"'([^']+)' depends on axioms: \[([^\]]*)\]")
 NOAX_RE = re.compile(r"'([^']+)' does not depend on any axioms")
 
 
-def check_props_file(rel):
-    """Elaborate one Props file with `lake env lean` (re-checks its proofs against the freshly built
-    dependencies) and parse the `#print axioms` lines. Returns (ok, axioms: name -> set, log)."""
+def check_props_file(rel, names):
+    """Re-elaborate one Props file with `lake env lean` (re-checks its proofs against the freshly
+    built dependencies), then print the axioms of every theorem named in it from a generated audit
+    file. Returns (ok, axioms: full name -> set, log)."""
     with BuildLock():
         pass  # wait for any build in progress
     rc, out = _run(["lake", "env", "lean", rel], cwd=LEAN, timeout=3000)
-    ax = {}
-    for m in AX_RE.finditer(out.replace("\n ", " ").replace("\n", " ")):
-        ax[m.group(1).split(".")[-1]] = {a.strip() for a in m.group(2).split(",") if a.strip()}
-    for m in NOAX_RE.finditer(out):
-        ax[m.group(1).split(".")[-1]] = set()
     has_err = rc != 0 or re.search(r"(^|\n)[^\n]*: error:", out) is not None
+    ax = {}
+    if names:
+        mod = rel[:-5].replace("/", ".")
+        audit_dir = os.path.join(LEAN, ".lake", "audit")
+        os.makedirs(audit_dir, exist_ok=True)
+        apath = os.path.join(audit_dir, mod.replace(".", "_") + ".lean")
+        with open(apath, "w") as f:
+            f.write(f"import {mod}\n" + "".join(f"#print axioms {n}\n" for n in names))
+        rc2, out2 = _run(["lake", "env", "lean", apath], cwd=LEAN, timeout=3000)
+        flat = out2.replace("\n ", " ").replace("\n", " ")
+        for m in AX_RE.finditer(flat):
+            ax[m.group(1)] = {a.strip() for a in m.group(2).split(",") if a.strip()}
+        for m in NOAX_RE.finditer(out2):
+            ax[m.group(1)] = set()
+        out += "\n" + out2
     return (not has_err), ax, out
 
 
@@ -195,14 +223,26 @@ class Driver:
 # Known findings
 
 
+KF_FILE = os.path.join(ROOT, "known_findings.txt")
+
+
 def load_known_findings():
-    p = os.path.join(ROOT, "known_findings.jsonl")
+    """Parse known_findings.txt. Returns list of dicts {status, property, ...}."""
     out = []
-    if os.path.exists(p):
-        for line in open(p):
-            line = line.strip()
-            if line and not line.startswith("#"):
-                out.append(json.loads(line))
+    if not os.path.exists(KF_FILE):
+        return out
+    for line in open(KF_FILE):
+        line = line.strip()
+        if not line or line.startswith("#"):
+            continue
+        if line.startswith("fixed:"):
+            m = re.match(r"fixed:\s+property=(\S+)\s+(\S+)\s+(.*)", line)
+            if m:
+                out.append({"status": "fixed", "property": m.group(1), "commit": m.group(2), "what": m.group(3)})
+        elif line.startswith("open:"):
+            m = re.match(r"open:\s+property=(\S+)\s+id=(\S+)\s+match=(\{.*?\})\s+what=(.*)", line)
+            if m:
+                out.append({"status": "open", "property": m.group(1), "id": m.group(2), "match": json.loads(m.group(3)), "what": m.group(4)})
     return out
 
 
